@@ -407,7 +407,7 @@ func genDenom(r *hx.Rng) transfertypes.Denom {
 // A -> B -> A round trips with observable rate-limit flows.
 func famChain(t *testing.T, r *hx.Rng, o *hx.Out) {
 	w := newWorld(t)
-	n := hx.N(90, 2500)
+	n := hx.N(90, 700)
 
 	for i := 0; i < n/2; i++ {
 		d := genDenom(r)
@@ -463,7 +463,7 @@ func famChain(t *testing.T, r *hx.Rng, o *hx.Out) {
 	}
 
 	// real round trips
-	trips := hx.N(30, 500)
+	trips := hx.N(30, 200)
 	fixed := []string{"foo/channel-5", "foo/channel-5/bar", "gamm/pool/1", "factory/cosmos1xyz/sub", "uatom", "transfer/channel-7/stake"}
 	for i := 0; i < trips; i++ {
 		p := w.paths[r.Intn(len(w.paths))]
